@@ -1,3 +1,5 @@
+import ast
+
 import pyparsing
 from miasm.expression.expression import ExprInt, ExprId, ExprLoc, ExprSlice, \
     ExprMem, ExprCond, ExprCompose, ExprOp, ExprAssign, LocKey
@@ -35,11 +37,11 @@ T_INF = pyparsing.Suppress("<")
 T_SUP = pyparsing.Suppress(">")
 
 
-string_quote = pyparsing.QuotedString(quoteChar="'", escChar='\\', escQuote='\\')
-string_dquote = pyparsing.QuotedString(quoteChar='"', escChar='\\', escQuote='\\')
-
-
-string = string_quote | string_dquote
+# Strings are the Python literals written by repr(): let Python decode their
+# escape sequences (backslashes, escaped quotes, ...)
+string = pyparsing.quotedString.copy().setParseAction(
+    lambda t: ast.literal_eval(t[0])
+)
 
 expr = pyparsing.Forward()
 
